@@ -34,6 +34,9 @@ namespace bloch::compiler {
         size_t m_position;
         int m_line;
         int m_column;
+        // Position of the first character of the token being scanned.
+        int m_tokenLine = 1;
+        int m_tokenColumn = 1;
 
         // Character helpers
         [[nodiscard]] char peek() const noexcept;
